@@ -1,2 +1,138 @@
 //! Verification harnesses compiled into heathcliff::encryptor as child module `verif_v`.
 #![allow(unused, dead_code, non_snake_case)]
+use super::*;
+use crate::text::verif_v::{mk_ciphertext, mk_plaintext};
+
+pub(crate) fn mk_decryptor(context: Arc<HeContext>, secret_key_array: Vec<u64>) -> Decryptor {
+    Decryptor { context, secret_key_array: RwLock::new(secret_key_array) }
+}
+pub(crate) fn mk_encryptor(context: Arc<HeContext>, public_key: Option<PublicKey>, secret_key: Option<SecretKey>) -> Encryptor {
+    Encryptor { context, public_key, secret_key }
+}
+
+#[cfg(kani)]
+mod proofs {
+    use super::*;
+    use crate::verif_v::lits;
+
+    fn tern(x: u8, q: u64) -> u64 { match x { 0 => 0, 1 => 1, _ => q - 1 } }
+
+    // @harness id=C01 tier=quick unwind=10 timeout=2400 fs=4096
+    // @desc BFV decryption of an ARBITRARY size-2 ciphertext under an arbitrary ternary secret key returns round(t * phase / q) mod t coefficient-wise, where phase = c0 + c1*s in Z_q[X]/(X^2+1) (computed by the harness in the coefficient domain); in particular a fresh encryption Delta*m + v with |v| below the threshold decrypts to m. The result plaintext is trimmed to its significant coefficients.
+    // @bounds BFV N=2, q={97}, t=3; all ciphertext residues, all ternary keys (NTT form obtained with the real transform); coefficient index symbolic
+    // @funcs Decryptor::decrypt, Decryptor::bfv_decrypt, Decryptor::dot_product_ct_sk_array, Decryptor::compute_secret_key_array, RNSTool::decrypt_scale_and_round, polysmallmod::{ntt_p,intt_p,dyadic_product_inplace_p,add_inplace_p}
+    // @stubs HeContext::get_context_data -> linear search over the literal chain (HashMap lookup outside the claim); alloc::sync::Arc::drop_slow -> no-op (memory reclamation outside the claim)
+    #[kani::proof]
+    #[kani::stub(crate::context::HeContext::get_context_data, crate::context::verif_v::get_context_data_stub)]
+    #[kani::stub(alloc::sync::Arc::drop_slow, crate::verif_v::arc_drop_slow_noop)]
+    fn c01_bfv_decrypt_is_scale_and_round() {
+        let ctx = lits::ctx_bfv_n2_1p();
+        let pid = *ctx.first_parms_id();
+        let q = 97u64; let t = 3u64;
+        let sk: [u8; 2] = kani::any(); kani::assume(sk[0] < 3 && sk[1] < 3);
+        let s = [tern(sk[0], q), tern(sk[1], q)];
+        let mut s_ntt = s;
+        { let cd = ctx.key_context_data().unwrap(); polymod::ntt_p(&mut s_ntt, 2, cd.small_ntt_tables()); std::mem::forget(cd); }
+        let dec = mk_decryptor(ctx.clone(), s_ntt.to_vec());
+        let c: [u8; 4] = kani::any(); kani::assume(c[0] < 97 && c[1] < 97 && c[2] < 97 && c[3] < 97);
+        let ct = mk_ciphertext(2, 1, 2, vec![c[0] as u64, c[1] as u64, c[2] as u64, c[3] as u64], pid, 1.0, false, 1);
+        let p = dec.decrypt_new(&ct);
+        // phase in the coefficient domain: (c1_0 + c1_1 X)(s_0 + s_1 X) mod X^2+1
+        let (c00, c01, c10, c11) = (c[0] as u64, c[1] as u64, c[2] as u64, c[3] as u64);
+        let ph0 = (c00 + c10 * s[0] + (q * q - c11 * s[1])) % q;
+        let ph1 = (c01 + c10 * s[1] + c11 * s[0]) % q;
+        let m0 = ((2 * t * ph0 + q) / (2 * q)) % t;
+        let m1 = ((2 * t * ph1 + q) / (2 * q)) % t;
+        kani::cover!(m1 != 0 && sk[1] == 2);
+        let n = p.coeff_count();
+        assert!(n == if m1 != 0 { 2 } else { 1 } && p.data().len() == n);
+        assert!(p.data()[0] == m0 && (n < 2 || p.data()[1] == m1));
+        assert!(!p.is_ntt_form());
+        std::mem::forget(dec); std::mem::forget(ctx);
+    }
+
+    // @harness id=C01 tier=quick unwind=10 timeout=2400 fs=4096
+    // @desc scaling_variant::multiply_add_plain / multiply_sub_plain add resp. subtract exactly round-half-up(q*m/t) = floor((q*m + floor((t+1)/2)) / t) to every RNS component of the destination, for every plaintext coefficient m < t (incl. 0, t-1, the upper half) and short plaintexts (remaining coefficients untouched)
+    // @bounds BFV N=2, q={97,113} (Q=10961), t=17 (batching prime) -- parameter corner t=16 (power of two, q in non-ascending order) in c01_multiply_add_plain_pow2t; plaintext length 1 or 2; all m < t; all prior destination residues
+    // @funcs scaling_variant::multiply_add_plain, scaling_variant::multiply_sub_plain, multiply_u64operand_add_u64_mod, divide_u128_u64_inplace
+    // @stubs HeContext::get_context_data -> linear search over the literal chain; alloc::sync::Arc::drop_slow -> no-op
+    #[kani::proof]
+    #[kani::stub(crate::context::HeContext::get_context_data, crate::context::verif_v::get_context_data_stub)]
+    #[kani::stub(alloc::sync::Arc::drop_slow, crate::verif_v::arc_drop_slow_noop)]
+    fn c01_multiply_add_plain() {
+        let ctx = lits::ctx_bfv_n2_2p1();
+        scale_case(&ctx, [97, 113], 17);
+        std::mem::forget(ctx);
+    }
+    // @harness id=C01 tier=quick unwind=10 timeout=2400 fs=4096
+    // @desc as c01_multiply_add_plain at the parameter corner t = 2^4 with the coefficient primes in non-ascending order
+    // @bounds BFV N=2, q={113,97}, t=16
+    // @funcs scaling_variant::multiply_add_plain, scaling_variant::multiply_sub_plain
+    // @stubs HeContext::get_context_data -> linear search over the literal chain; alloc::sync::Arc::drop_slow -> no-op
+    #[kani::proof]
+    #[kani::stub(crate::context::HeContext::get_context_data, crate::context::verif_v::get_context_data_stub)]
+    #[kani::stub(alloc::sync::Arc::drop_slow, crate::verif_v::arc_drop_slow_noop)]
+    fn c01_multiply_add_plain_pow2t() {
+        let ctx = lits::ctx_bfv_n2_pow2t();
+        scale_case(&ctx, [113, 97], 16);
+        std::mem::forget(ctx);
+    }
+    fn scale_case(ctx: &Arc<HeContext>, q: [u64; 2], t: u64) {
+        let cd = ctx.first_context_data().unwrap();
+        let qq = q[0] * q[1];
+        let m: [u8; 2] = kani::any(); kani::assume((m[0] as u64) < t && (m[1] as u64) < t);
+        let short: bool = kani::any();
+        let plain = if short { mk_plaintext(1, vec![m[0] as u64], crate::PARMS_ID_ZERO, 1.0) } else { mk_plaintext(2, vec![m[0] as u64, m[1] as u64], crate::PARMS_ID_ZERO, 1.0) };
+        let d: [u8; 4] = kani::any();
+        kani::assume((d[0] as u64) < q[0] && (d[1] as u64) < q[0] && (d[2] as u64) < q[1] && (d[3] as u64) < q[1]);
+        let d0 = [d[0] as u64, d[1] as u64, d[2] as u64, d[3] as u64];
+        let sub: bool = kani::any();
+        let mut dest = d0;
+        if sub { crate::util::scaling_variant::multiply_sub_plain(&plain, &cd, &mut dest); } else { crate::util::scaling_variant::multiply_add_plain(&plain, &cd, &mut dest); }
+        let i: usize = kani::any(); let j: usize = kani::any(); kani::assume(i < 2 && j < 2);   // coefficient i, modulus j
+        let mi = if short && i == 1 { 0 } else { m[i] as u64 };
+        let scaled = (qq * mi + (t + 1) / 2) / t;          // round half up of q*m/t
+        let e = if sub { (d0[j * 2 + i] + q[j] - scaled % q[j]) % q[j] } else { (d0[j * 2 + i] + scaled) % q[j] };
+        kani::cover!(mi >= (t + 1) / 2 && sub);
+        assert!(dest[j * 2 + i] == e);
+        std::mem::forget(cd);
+    }
+
+    // @harness id=C07 tier=quick unwind=10 timeout=2400 fs=4096
+    // @desc invariant_noise_budget(ct) equals the definition evaluated exactly: budget = max(0, bits(q) - bits(max_i |t*phase_i mod q|_centered) - 1) for the phase under the secret key, for EVERY ciphertext/key (also those with zero budget); negation leaves it unchanged
+    // @bounds BFV N=2, q={97}, t=3; all ciphertext residues, all ternary keys
+    // @funcs Decryptor::invariant_noise_budget, Decryptor::dot_product_ct_sk_array, poly_infty_norm, RNSBase::compose_array, half_round_up_uint, get_significant_bit_count_uint
+    // @stubs HeContext::get_context_data -> linear search over the literal chain; alloc::sync::Arc::drop_slow -> no-op
+    #[kani::proof]
+    #[kani::stub(crate::context::HeContext::get_context_data, crate::context::verif_v::get_context_data_stub)]
+    #[kani::stub(alloc::sync::Arc::drop_slow, crate::verif_v::arc_drop_slow_noop)]
+    fn c07_noise_budget_is_definition() {
+        let ctx = lits::ctx_bfv_n2_1p();
+        let pid = *ctx.first_parms_id();
+        let q = 97u64; let t = 3u64;
+        let sk: [u8; 2] = kani::any(); kani::assume(sk[0] < 3 && sk[1] < 3);
+        let s = [tern(sk[0], q), tern(sk[1], q)];
+        let mut s_ntt = s;
+        { let cd = ctx.key_context_data().unwrap(); polymod::ntt_p(&mut s_ntt, 2, cd.small_ntt_tables()); std::mem::forget(cd); }
+        let dec = mk_decryptor(ctx.clone(), s_ntt.to_vec());
+        let c: [u8; 4] = kani::any(); kani::assume(c[0] < 97 && c[1] < 97 && c[2] < 97 && c[3] < 97);
+        let cv = [c[0] as u64, c[1] as u64, c[2] as u64, c[3] as u64];
+        let ct = mk_ciphertext(2, 1, 2, cv.to_vec(), pid, 1.0, false, 1);
+        let b = dec.invariant_noise_budget(&ct);
+        let ph0 = (cv[0] + cv[2] * s[0] + (q * q - cv[3] * s[1])) % q;
+        let ph1 = (cv[1] + cv[2] * s[1] + cv[3] * s[0]) % q;
+        let cen = |x: u64| { let y = (t * x) % q; if y >= (q + 1) / 2 { q - y } else { y } };
+        let norm = if cen(ph0) > cen(ph1) { cen(ph0) } else { cen(ph1) };
+        let bits = |x: u64| (64 - x.leading_zeros()) as isize;
+        let e = bits(q) - bits(norm) - 1;
+        kani::cover!(e > 3);
+        kani::cover!(e < 0);
+        assert!(b as isize == if e < 0 { 0 } else { e });
+        // negation preserves the budget
+        let neg = mk_ciphertext(2, 1, 2, vec![(q - cv[0]) % q, (q - cv[1]) % q, (q - cv[2]) % q, (q - cv[3]) % q], pid, 1.0, false, 1);
+        assert!(dec.invariant_noise_budget(&neg) == b);
+        std::mem::forget(dec); std::mem::forget(ctx);
+    }
+
+    #[cfg(test)] include!("/verif/.build/playback/encryptor_v.rs");
+}
